@@ -27,6 +27,8 @@ func TestC14(t *testing.T) {
 		"inputs to the scanner alone: token sequences enumerated after canonical prefixes, rapid token soups, mutated fixtures, the fixtures themselves; the oracle applies to inputs scanned to EOF without error; non-trivial = >= 3 lexemes including a body or annotation; distinct by input hash",
 		"the schema library's Len() is the reference for where a schema / enum value ends", "the gap recogniser is written from the language description (README), not from the step functions")
 	h.Require("scanned-to-eof", "scanner-rejects")
+	// failing inputs of the native fuzz arm (thorough tier, driver-run) replay through this campaign
+	vlib.Enum(h, "native-fuzz", false, func(func(string) bool) {}, c14Check)
 
 	vlib.Enum(h, "fixtures", false, func(yield func(string) bool) {
 		for i, c := range vlib.Corpus() {
